@@ -182,7 +182,7 @@ class _RecBufferedWriter(io.BufferedWriter):
 
     def write(self, b):
         if self._rec.before_write:
-            self._rec.before_write(self._hid, len(b))
+            self._rec.before_write(self._hid, b)
         self._rec.py.append((self._hid, len(b), threading.current_thread().name))
         return super().write(b)
 
@@ -194,7 +194,7 @@ class _RecBufferedRandom(io.BufferedRandom):
 
     def write(self, b):
         if self._rec.before_write:
-            self._rec.before_write(self._hid, len(b))
+            self._rec.before_write(self._hid, b)
         self._rec.py.append((self._hid, len(b), threading.current_thread().name))
         return super().write(b)
 
